@@ -293,6 +293,134 @@ theorem boxArr_length (lower : Bool) (I : Inst) (arr : List XVal) (hE : 0 < I.E)
       rfl
 
 
+/-! ### frame lemmas in terms of actual writes (shared control entries) -/
+
+theorem applyPins_frame_nowrite (I : Inst) (m : Nat) (l : List (Blk × Option Hist)) (j0 : Nat)
+    (lo hi lo' hi' : List XVal) (h : applyPins I m l j0 (lo, hi) = some (lo', hi')) (p : Nat)
+    (hp : ∀ k b hh, l[k]? = some (b, hh) → p = pinIndex I m (j0 + k) → pinValue I.t0 b hh = some none) :
+    lo'[p]? = lo[p]? ∧ hi'[p]? = hi[p]? := by
+  induction l generalizing j0 lo hi with
+  | nil => simp [applyPins] at h; obtain ⟨rfl, rfl⟩ := h; exact ⟨rfl, rfl⟩
+  | cons x l ih =>
+    obtain ⟨b, hh⟩ := x
+    unfold applyPins at h
+    have hp' : ∀ k b' hh', l[k]? = some (b', hh') → p = pinIndex I m (j0 + 1 + k) →
+        pinValue I.t0 b' hh' = some none := by
+      intro k b' hh' hk hpk
+      exact hp (k + 1) b' hh' (by simpa using hk) (by rw [show j0 + (k + 1) = j0 + 1 + k by ring]; exact hpk)
+    cases hv : pinValue I.t0 b hh with
+    | none => simp [hv] at h
+    | some w =>
+      cases w with
+      | none =>
+        simp only [hv] at h
+        exact ih (j0 + 1) lo hi h hp'
+      | some v =>
+        simp only [hv] at h
+        have hp0 : p ≠ pinIndex I m j0 := by
+          intro heq
+          have := hp 0 b hh (by simp) (by simpa using heq)
+          rw [hv] at this
+          cases this
+        obtain ⟨h1, h2⟩ := ih (j0 + 1) _ _ h hp'
+        rw [h1, h2, List.getElem?_set, List.getElem?_set]
+        simp [Ne.symm hp0]
+
+/-- entries that no member *writes* (no history value for them, no derivative slot) keep their box -/
+theorem pinMembers_frame_nowrite (I : Inst) (noms : List Rat) (e m0 : Nat) (lo hi lo' hi' : List XVal)
+    (sym sym' : List Nat) (h : pinMembers I noms e m0 (lo, hi, sym) = some (lo', hi', sym')) (p : Nat)
+    (hp : ∀ m', m0 ≤ m' → m' < m0 + e →
+      (∀ k, p = pinIndex I m' k → memberPin I m' k = some none) ∧
+      (∀ i, i < I.states.length → p ≠ derIndex I m' i)) :
+    lo'[p]? = lo[p]? ∧ hi'[p]? = hi[p]? := by
+  induction e generalizing m0 lo hi sym with
+  | zero => simp [pinMembers] at h; obtain ⟨rfl, rfl, _⟩ := h; exact ⟨rfl, rfl⟩
+  | succ e ih =>
+    unfold pinMembers at h
+    simp only at h
+    cases h1 : applyPins I m0 ((pinVars I).zip (histOf I m0 ++ List.replicate (pinVars I).length none)) 0 (lo, hi) with
+    | none => simp [h1] at h
+    | some a1 =>
+      obtain ⟨lo1, hi1⟩ := a1
+      simp only [h1] at h
+      cases h2 : applyDerPins I m0 noms (I.states.zip (histOf I m0 ++ List.replicate I.states.length none)) 0 (lo1, hi1, sym) with
+      | none => simp [h2] at h
+      | some a2 =>
+        obtain ⟨lo2, hi2, sym2⟩ := a2
+        simp only [h2] at h
+        obtain ⟨hpa, hpb⟩ := hp m0 (le_refl _) (by omega)
+        have f1 := applyPins_frame_nowrite I m0 _ 0 lo hi lo1 hi1 h1 p (by
+          intro k b hh hk hpk
+          have := hpa k (by simpa using hpk)
+          simpa [memberPin, hk] using this)
+        have f2 := applyDerPins_frame I m0 noms _ 0 lo1 hi1 lo2 hi2 sym sym2 h2 p (by
+          intro k hk
+          rw [zip_pad_length] at hk
+          simpa using hpb k hk)
+        obtain ⟨f3a, f3b⟩ := ih (m0 + 1) lo2 hi2 sym2 h (by
+          intro m' h1' h2'; exact hp m' (by omega) (by omega))
+        exact ⟨by rw [f3a, f2.1, f1.1], by rw [f3b, f2.2, f1.2]⟩
+
+/-- control entries are the same for every member -/
+theorem pinIndex_ctrl_shared (I : Inst) (m m' k : Nat) (hk : ¬ k < I.states.length + I.algs.length) :
+    pinIndex I m k = pinIndex I m' k := by
+  simp [pinIndex, hk]
+
+theorem pinVars_length (I : Inst) :
+    (pinVars I).length = I.states.length + I.algs.length + I.controls.length := by
+  simp [pinVars]; omega
+
+/-- entries of different controls are different entries -/
+theorem pinIndex_ctrl_ne (I : Inst) (hne : NonEmpty I) (m m' k k' : Nat)
+    (hk : ¬ k < I.states.length + I.algs.length) (hk' : ¬ k' < I.states.length + I.algs.length)
+    (hlt : k < k') (hl : k' < (pinVars I).length) : pinIndex I m k ≠ pinIndex I m' k' := by
+  simp only [pinIndex, hk, hk', if_false]
+  rw [pinVars_length] at hl
+  set ns := I.states.length + I.algs.length
+  have hj : k - ns < I.controls.length := by omega
+  obtain ⟨b, hb⟩ : ∃ b, I.controls[k - ns]? = some b := ⟨_, List.getElem?_eq_getElem hj⟩
+  have hpos := hne.2 b (List.mem_of_getElem? hb)
+  have := offsetOf_lt_slots I.controls (k - ns) (k' - ns) b hb (by omega)
+  omega
+
+/-- a control entry is never an entry of a state-pass slot -/
+theorem pinIndex_ctrl_ne_slot (I : Inst) (hne : NonEmpty I) (m m' k j : Nat)
+    (hk : ¬ k < I.states.length + I.algs.length) (hl : k < (pinVars I).length) :
+    pinIndex I m k ≠ slotStart I m' j := by
+  have := pinIndex_ctrl_lt I hne m k hk hl
+  unfold slotStart
+  omega
+
+
+theorem memberPin_out_of_range (I : Inst) (m k : Nat) (h : ¬ k < (pinVars I).length) :
+    memberPin I m k = some none := by
+  unfold memberPin
+  have : ((pinVars I).zip (histOf I m ++ List.replicate (pinVars I).length none))[k]? = none := by
+    rw [List.getElem?_eq_none_iff, zip_pad_length]; omega
+  rw [this]
+
+/-- a member that has no value for control `k` writes nothing to that control's first entry -/
+theorem ctrl_nowrite (I : Inst) (hne : NonEmpty I) (m m' k : Nat)
+    (hk : ¬ k < I.states.length + I.algs.length) (hl : k < (pinVars I).length)
+    (hnone : memberPin I m' k = some none) :
+    (∀ k'', pinIndex I m k = pinIndex I m' k'' → memberPin I m' k'' = some none) ∧
+    (∀ i, i < I.states.length → pinIndex I m k ≠ derIndex I m' i) := by
+  constructor
+  · intro k'' heq
+    by_cases hl'' : k'' < (pinVars I).length
+    · by_cases hs : k'' < I.states.length + I.algs.length
+      · rw [pinIndex_state I m' k'' hs] at heq
+        exact absurd heq (pinIndex_ctrl_ne_slot I hne m m' k k'' hk hl)
+      · rcases Nat.lt_trichotomy k k'' with h | h | h
+        · exact absurd heq (pinIndex_ctrl_ne I hne m m' k k'' hk hs h hl'')
+        · rw [← h]; exact hnone
+        · exact absurd heq.symm (pinIndex_ctrl_ne I hne m' m k'' k hs hk h hl)
+    · exact memberPin_out_of_range I m' k'' hl''
+  · intro i _
+    rw [derIndex_eq]
+    exact pinIndex_ctrl_ne_slot I hne m m' k _ hk hl
+
+
 theorem transcribe_unfold (I : Inst) (r : Result) (h : transcribeBounds I = some r) :
     ∃ noms lo hi, boxArr true I = some lo ∧ boxArr false I = some hi ∧
       pinMembers I noms I.E 0 (lo, hi, []) = some (r.lbx, r.ubx, r.symbolic) ∧ r.derNoms = noms := by
